@@ -111,6 +111,57 @@ def candidates_expr(prog):
             yield p2
 
 
+def _all_exprs(prog):
+    out = []
+
+    def ve(e):
+        out.append(e)
+        for c in e_children(e):
+            ve(c)
+
+    def vs(s):
+        for n, v in s.f.items():
+            if isinstance(v, E):
+                ve(v)
+            elif isinstance(v, list):
+                for x in v:
+                    if isinstance(x, E):
+                        ve(x)
+                    elif isinstance(x, tuple) and len(x) > 1 and isinstance(x[1], E):
+                        ve(x[1])
+        for b in (s.f.get("th"), s.f.get("el"), s.f.get("body")):
+            if b is not None:
+                for x in b:
+                    vs(x)
+    for f, body in _bodies(prog):
+        for s in body:
+            vs(s)
+    return out
+
+
+def candidates_fun(prog, calls):
+    """(program, calls) with one uncalled external function or one unreferenced internal function removed"""
+    used = {c.fidx for c in calls}
+    for k in range(len(prog.exts) - 1, -1, -1):
+        if k not in used and len(prog.exts) > 1:
+            p2 = copy.deepcopy(prog)
+            del p2.exts[k]
+            cs2 = copy.deepcopy(calls)
+            for c in cs2:
+                if c.fidx > k:
+                    c.fidx -= 1
+            yield p2, cs2
+    referenced = {e.id for e in _all_exprs(prog) if e.k == "call"}
+    for k in range(len(prog.ints) - 1, -1, -1):
+        if k not in referenced:
+            p2 = copy.deepcopy(prog)
+            del p2.ints[k]
+            for e in _all_exprs(p2):
+                if e.k == "call" and e.id > k:
+                    e.f["id"] = e.id - 1
+            yield p2, calls
+
+
 def shrink(prog, calls, cfg, what, budget_s=60, log=None):
     """returns (prog, calls, diff) minimised while `compare` still reports a difference of kind `what` under cfg"""
     t0 = time.time()
@@ -147,10 +198,19 @@ def shrink(prog, calls, cfg, what, budget_s=60, log=None):
             calls, best = cs, d
         else:
             i += 1
-    # 2. statements, 3. expressions (to fixpoint)
+    # 2. statements, 3. expressions, unused functions (to fixpoint)
     progress = True
     while progress and time.time() - t0 < budget_s:
         progress = False
+        for p2, cs2 in candidates_fun(prog, calls):
+            if time.time() - t0 > budget_s:
+                break
+            d = still(p2, cs2)
+            if d:
+                prog, calls, best, progress = p2, cs2, d, True
+                break
+        if progress:
+            continue
         for gen in (candidates_stmt, candidates_expr):
             for p2 in gen(prog):
                 if time.time() - t0 > budget_s:
@@ -173,3 +233,25 @@ def shrink(prog, calls, cfg, what, budget_s=60, log=None):
                         calls, best = cs, d
                         break
     return prog, calls, best
+
+
+def shrink_pred(prog, pred, budget_s=40):
+    """generic: smaller program (fewer statements, simpler expressions) on which pred(prog) still holds"""
+    t0 = time.time()
+    progress = True
+    while progress and time.time() - t0 < budget_s:
+        progress = False
+        for gen in (candidates_stmt, candidates_expr):
+            for p2 in gen(prog):
+                if time.time() - t0 > budget_s:
+                    break
+                try:
+                    ok = pred(p2)
+                except Exception:
+                    ok = False
+                if ok:
+                    prog, progress = p2, True
+                    break
+            if progress:
+                break
+    return prog
